@@ -21,9 +21,13 @@ def run(ck, progs):
     ck.rule("C04.8", "the two reductions across ranks: minimum of one double per rank, sum-scatter of one uint32 per rank, datatype = C type of the "
                      "buffers, separate static buffers, and the request each *_done sibling tests is the one started")
     ck.rule("C04.9", "the node-level minimum folds the local minimum of every thread (evaluated for 1..8 threads and every position of the smallest value) and the per-destination send counts are accumulated for every rank (loop header evaluated for 1..8 ranks)")
+    ck.rule("C04.11", "bookkeeping of the node-level automaton: the snapshot of the send counters covers every rank; the received-message counter "
+                      "balances (+1 per thread, -(expected + threads) by the elected thread); the elected thread releases the round only when every "
+                      "thread has arrived; the last state resets both automata; first reduction -> message count, second -> minimum reduction")
     ck.rule("C04.10", "constants of the round protocol: a thread leaves each rendezvous exactly when its counter is 0 (phases A, D) or the thread count (B, C), evaluated for 1..8 threads; the colour flips when the first reduction completes and only then; every per-colour counter of the node automaton is indexed with the closed colour !gvt_phase; the per-thread received count is cleared after it was handed over")
     for cfg, P in progs.items():
         rules_gvt.check_round_protocol(ck, P, "C04.10")
+        rules_gvt.check_node_protocol(ck, P, "C04.11")
         rules_cover.check_node_minimum(ck, P, "C04.9")
         rules_cover.check_sent_totals(ck, P, "C04.9")
         rules_gvt.check_extraction_first(ck, P, "C04.1")
